@@ -201,8 +201,10 @@ def run(case, max_steps=150000):
             stop = A.loop_in_thread(target)
             o['returned'] = (sim.now, sim.steps)
             o['running_at_return'] = target.is_running()
-            sim.sleep(lit['hold'])
-            sim.block_until(lambda: state['done'] >= n, what='callers-done')
+            if lit['hold'] > 0:
+                sim.sleep(lit['hold'])
+            if not lit.get('stop_early'):      # stop_early: stop() is called while callers may still be under way
+                sim.block_until(lambda: state['done'] >= n, what='callers-done')
             o['stop_called'] = (sim.now, sim.steps)
             stop()
             o['stop_returned'] = (sim.now, sim.steps)
